@@ -711,7 +711,7 @@ func propC17(p *Prog, r *Report) {
 	if fi := cleanerStepFunc(p); fi != nil {
 		info := fi.Pkg.TypesInfo
 		ok := false
-		ast.Inspect(fi.Decl.Body, func(x ast.Node) bool {
+		visit := func(x ast.Node) bool {
 			if c, isC := x.(*ast.CallExpr); isC && p.callIs(fi.Pkg, c, kDirAdd) && len(c.Args) == 2 {
 				if pc, isP := ast.Unparen(c.Args[1]).(*ast.CallExpr); isP && p.callIs(fi.Pkg, pc, "internal/model.ParseDir") && len(pc.Args) == 1 {
 					if sel, isS := ast.Unparen(pc.Args[0]).(*ast.SelectorExpr); isS && sel.Sel.Name == "Parent" {
@@ -720,7 +720,10 @@ func propC17(p *Prog, r *Report) {
 				}
 			}
 			return true
-		})
+		}
+		for _, body := range p.deepBodies(fi) {
+			ast.Inspect(body, visit)
+		}
 		_ = info
 		r.Check(ok, "C17.d", kCleanDeleteFile+"#re-activation", p.pos(fi.Decl), "dRepo.Add(ParseDir(cf.Parent))", "after removing a content its directory is not re-registered from the content record's Parent: a rotated-out directory that has room again is never used")
 		c04DeleteOrder(p, r, "C17.d")
